@@ -92,16 +92,22 @@ package expr
 //@ func (*Object).Set
 //@   params o n att
 //@   requires o != nil
+//@   ensures grows: len(load(o)) >= old(len(load(o))) && len(load(o)) <= old(len(load(o))) + 1
+//@   ensures array: load(o).arr == old(load(o).arr) || fresh(load(o))
+//@   ensures kept: forall i int :: 0 <= i && i < old(len(load(o))) ==> load(o)[i] == old(load(o)[i])
+//@   ensures added: len(load(o)) > old(len(load(o))) ==> fresh(load(o)[old(len(load(o)))])
 //@   modifies cell(o), elems(load(o)), each(load(o), Attribute)
 //@ func GeneratedResultType
 //@   params id
 //@   modifies nothing
 
+//@ macro memoInv(d) = d.uts == old(d.uts) && d.ats == old(d.ats) && (forall a *AttributeExpr :: old(inMap(d.ats, a)) ==> inMap(d.ats, a)) && (forall a *AttributeExpr :: inMap(d.ats, a) && !old(inMap(d.ats, a)) ==> fresh(a))
 //@ func (*dupper).DupType
 //@   params d t
-//@   trusted
-//@   opt verify callsites
+//@   locals res dp
 //@   property C13
+//@   loop 1 invariant object: res != nil && sinceEntry(res) && (load(res).arr == 0 || sinceEntry(load(res))) && (forall i int :: 0 <= i && i < len(load(res)) ==> sinceEntry(load(res)[i])) && memoInv(d)
+//@   loop 2 invariant union: memoInv(d)
 //@   requires d != nil && d.uts != nil && d.ats != nil
 //@   ensures memo: d.uts == old(d.uts) && d.ats == old(d.ats)
 //@   ensures memo.grows: forall a *AttributeExpr :: old(inMap(d.ats, a)) ==> inMap(d.ats, a)
@@ -132,7 +138,7 @@ package expr
 //@ func (*dupper).DupAttribute
 //@   params d att
 //@   property C13
-//@   requires d != nil && d.uts != nil && d.ats != nil && att != nil
+//@   requires d != nil && d.uts != nil && d.ats != nil
 //@   let isNew = !old(inMap(d.ats, att))
 //@   ensures* memoised: !isNew ==> result == att
 //@   ensures* fresh.node: isNew ==> result != nil && fresh(result) && result != att
